@@ -418,21 +418,30 @@ def verbatim_loads(rule, prog, ctor, adt_path, fields, what):
     layout *file* assigns; a loader that completes, prunes or rewrites entries makes the table the rules read a different one."""
     from . import roles as _roles
     from engine.analyses import contains_call
-    b = _roles.ib(prog, ctor)
-    aggs = [(i, st) for i in b.rblocks for st in b.blocks[i]["stmts"]
-            if st["k"] == "assign" and st["rv"]["k"] == "aggregate" and st["rv"].get("agg") == "adt" and st["rv"].get("adt") == adt_path]
+    ctors = [ctor] if isinstance(ctor, str) else list(ctor)
+    aggs = []
+    mut_borrowed_of = {}
+    for ck in ctors:
+        b_ = _roles.ib(prog, ck)
+        for i in b_.rblocks:
+            for st in b_.blocks[i]["stmts"]:
+                if st["k"] == "assign" and st["rv"]["k"] == "aggregate" and st["rv"].get("agg") == "adt" and st["rv"].get("adt") == adt_path:
+                    aggs.append((b_, i, st))
+        mb = {}
+        for (i, j, st) in b_.stmts():
+            if st["k"] == "assign" and st["rv"]["k"] == "ref" and st["rv"].get("mut"):
+                mb.setdefault(st["rv"]["place"]["l"], (i, st))
+        mut_borrowed_of[id(b_)] = mb
+    ctor = ctors[0]
     if not aggs:
-        rule.undecidable("load", "%s does not build a %s" % (ctor, adt_path), fn_line(prog, ctor))
+        rule.undecidable("load", "%s does not build a %s" % (ctors, adt_path), fn_line(prog, ctor))
         return
-    mut_borrowed = {}
-    for (i, j, st) in b.stmts():
-        if st["k"] == "assign" and st["rv"]["k"] == "ref" and st["rv"].get("mut"):
-            mut_borrowed.setdefault(st["rv"]["place"]["l"], (i, st))
     for f in fields:
         key = "load:%s" % f
         verdict = None
         n_loaded = 0
-        for (i, st) in aggs:
+        for (b, i, st) in aggs:
+            mut_borrowed = mut_borrowed_of[id(b)]
             names = [str(x) for x in st["rv"].get("fields") or []]
             if f not in names:
                 continue
